@@ -1,89 +1,91 @@
-(* Model of engine_core/src/engine/zobrist_history.rs : ZobristHistory { history: [u64; 5000] }.
+(* Model of engine_core/src/engine/zobrist_history.rs : ZobristHistory { history: Vec<u64> }  (tree with fix aca2b0d).
 
-   The array is an update list over the default 0 (`Default` fills the array with 0): the newest write
-   to an index shadows older ones.  `None` = the Rust panics (array index out of bounds).
+   The vector starts as 5000 zeros, `set` pads it with zeros up to the written index, and every read goes
+   through `get(i) = history.get(i).copied().unwrap_or(0)`.  So the observable state is a total function from
+   indices to hashes that is 0 wherever nothing was written; the length of the vector cannot be observed.  The
+   model is the update list of that function (newest write first); nothing panics.
+   (Before aca2b0d the field was `[u64; 5000]` and any index >= 5000 was an out-of-bounds panic: defect D16,
+   see [historic_D16] in Proofs/HistoryProofs.v.)
 
    Integer widths.  `start_index`, `halfmove_clock` : u16 (callers cast, see [count_repetitions_u32]).
    The loop variable is i32: `start_index as i32 - 4` and `start_index as i32 - halfmove_clock as i32` are
    differences of two values below 2^16, and `current_index -= 2` never goes below -2, so no i32 operation
    can wrap; the model uses unbounded Z.  `repetitions` : usize, stays in 1..3.
 
+   The second part is the fifty-move branch of `Heuristic::evaluate` (heuristic.rs).
+
    NO proofs here (see Proofs/HistoryProofs.v). *)
 Require Import NArith ZArith List Bool.
 Import ListNotations.
 Open Scope N_scope.
 
-Definition HLEN : N := 5000.
+Definition INITIAL_LEN : N := 5000.         (* vec![0; 5000]; not observable *)
 
 Definition hist := list (N * N).            (* (index, hash), newest write first *)
 Definition hempty : hist := [].             (* ZobristHistory::default() : all 0 *)
 
+(* fn get(&self, index: usize) -> ZobristHash { self.history.get(index).copied().unwrap_or(0) } *)
 Fixpoint hget (h : hist) (i : N) : N :=
   match h with
   | [] => 0
   | (j, v) :: r => if N.eqb i j then v else hget r i
   end.
 
-(* self.history[i] as an rvalue: bounds-checked *)
-Definition hread (h : hist) (i : N) : option N :=
-  if i <? HLEN then Some (hget h i) else None.
-
-(* pub fn set(&mut self, index: u16, zobrist_hash) { self.history[index as usize] = zobrist_hash; } *)
-Definition hset (h : hist) (index hash : N) : option hist :=
-  if index <? HLEN then Some ((index, hash) :: h) else None.
+(* pub fn set(&mut self, index: u16, zobrist_hash): resize with zeros when needed, then store *)
+Definition hset (h : hist) (index hash : N) : hist := (index, hash) :: h.
 
 (* while current_index >= min_index { ... current_index -= 2; }   followed by `repetitions`.
-   Out of fuel is reported as None as well; [count_loop_fuel] (Proofs) shows that the fuel handed over by
-   [count_repetitions] is never exhausted. *)
+   None = out of fuel (a termination device of the model, not a behaviour of the code); [count_loop_total]
+   (Proofs) shows that the fuel handed over by [count_repetitions_fuel] is never exhausted. *)
 Fixpoint count_loop (fuel : nat) (h : hist) (zobrist : N) (min_index current_index : Z) (repetitions : N)
   : option N :=
   match fuel with
   | O => None
   | S k =>
       if (min_index <=? current_index)%Z then
-        match hread h (Z.to_N current_index) with        (* self.history[current_index as usize] *)
-        | None => None
-        | Some current_zobrist =>
-            if N.eqb current_zobrist zobrist then
-              let repetitions' := repetitions + 1 in
-              if 3 <=? repetitions' then Some 3
-              else count_loop k h zobrist min_index (current_index - 2)%Z repetitions'
-            else count_loop k h zobrist min_index (current_index - 2)%Z repetitions
-        end
+        let current_zobrist := hget h (Z.to_N current_index) in      (* self.get(current_index as usize) *)
+        if N.eqb current_zobrist zobrist then
+          let repetitions' := repetitions + 1 in
+          if 3 <=? repetitions' then Some 3
+          else count_loop k h zobrist min_index (current_index - 2)%Z repetitions'
+        else count_loop k h zobrist min_index (current_index - 2)%Z repetitions
       else Some repetitions
   end.
 
-(* pub fn count_repetitions(&self, start_index: u16, halfmove_clock: u16) -> usize *)
-Definition count_repetitions (h : hist) (start_index halfmove_clock : N) : option N :=
+Definition count_repetitions_fuel (h : hist) (start_index halfmove_clock : N) : option N :=
   if start_index <? 4 then Some 0
   else
     let current_index := (Z.of_N start_index - 4)%Z in
-    match hread h start_index with                       (* let zobrist = self.history[start_index as usize]; *)
-    | None => None
-    | Some zobrist =>
-        let min_index := Z.max 0 (Z.of_N start_index - Z.of_N halfmove_clock) in
-        count_loop (N.to_nat (start_index / 2 + 1)) h zobrist min_index current_index 1
-    end.
+    let zobrist := hget h start_index in                             (* self.get(start_index as usize) *)
+    let min_index := Z.max 0 (Z.of_N start_index - Z.of_N halfmove_clock) in
+    count_loop (N.to_nat (start_index / 2 + 1)) h zobrist min_index current_index 1.
+
+(* pub fn count_repetitions(&self, start_index: u16, halfmove_clock: u16) -> usize
+   (the None branch is unreachable: [count_repetitions_fuel_some]) *)
+Definition count_repetitions (h : hist) (start_index halfmove_clock : N) : N :=
+  match count_repetitions_fuel h start_index halfmove_clock with Some c => c | None => 0 end.
 
 (* search.rs: count_repetitions(ply_clock, halfmove_clock as u16) with halfmove_clock : u32 *)
-Definition count_repetitions_u32 (h : hist) (start_index halfmove_clock : N) : option N :=
+Definition count_repetitions_u32 (h : hist) (start_index halfmove_clock : N) : N :=
   count_repetitions h start_index (halfmove_clock mod 65536).
 
-(* search_negamax: zobrist_history.set(ply_clock, hash); then `count_repetitions(..) >= 3` selects the draw leaf.
+(* search_negamax: zobrist_history.set(ply_clock, hash); then
+   `ply_depth_from_root > 0 && count_repetitions(ply_clock, halfmove_clock as u16) >= 3` selects the draw leaf.
    Result: the updated history and the draw flag. *)
-Definition visit (h : hist) (ply_clock hash halfmove_clock : N) : option (hist * bool) :=
-  match hset h ply_clock hash with
-  | None => None
-  | Some h' =>
-      match count_repetitions_u32 h' ply_clock halfmove_clock with
-      | None => None
-      | Some c => Some (h', 3 <=? c)
-      end
-  end.
+Definition visit (h : hist) (ply_depth_from_root ply_clock hash halfmove_clock : N) : hist * bool :=
+  let h' := hset h ply_clock hash in
+  (h', (0 <? ply_depth_from_root) && (3 <=? count_repetitions_u32 h' ply_clock halfmove_clock)).
 
 (* set_position_from: the positions of the game are stored at consecutive ply clocks, oldest first. *)
-Fixpoint record_from (h : hist) (base : N) (keys : list N) : option hist :=
+Fixpoint record_from (h : hist) (base : N) (keys : list N) : hist :=
   match keys with
-  | [] => Some h
-  | x :: r => match hset h base x with None => None | Some h' => record_from h' (base + 1) r end
+  | [] => h
+  | x :: r => record_from (hset h base x) (base + 1) r
   end.
+
+(* ---- fifty-move rule: Heuristic::evaluate ----
+   if legal_moves_remaining { if bitboard.halfmove_clock >= Self::MAX_HALF_MOVES { draw_score } else { ongoing } }
+   else { mate / stalemate }.
+   [fifty_branch] = "the position is valued as a fifty-move draw". *)
+Definition fifty_branch (max_half : N) (half : N) (legal_moves_remaining : bool) : bool :=
+  legal_moves_remaining && (max_half <=? half).
